@@ -123,3 +123,43 @@ Definition state_ok_strict (fl : flags) (cf : config) (s : gstate) : bool :=
   | [] => quiescent s && (g_k s =? 0) && good_final cf s
   | _ => true
   end.
+
+(* the witnesses of Properties.v: configuration + schedule (also replayed on the implementation) *)
+Definition cA : content := [97; 48; 97; 97; 97].          (* initial contents of file 0, 5 bytes *)
+Definition cB : content := [98; 48; 98; 98].              (* initial contents of file 1, 4 bytes *)
+Definition u1 : content := [117; 49; 117].                (* payloads of the updates: 3, 7, 2 bytes *)
+Definition u2 : content := [118; 50; 118; 118; 118; 118; 118].
+Definition u3 : content := [119; 51].
+
+Definition cfg_get_upd : config := mkCfg 1048576 [(0, cA)] [[OGet 0]; [OUpd 0 u1]].
+Definition cfg_get_unl : config := mkCfg 1048576 [(0, cA)] [[OGet 0]; [OUnl 0]].
+Definition cfg_upd_unl : config := mkCfg 1048576 [(0, cA)] [[OUpd 0 u1]; [OUnl 0]].
+
+(* get: exists, getsize, lock(submit load 2) ; update: lock(unloads the pending load entry, submits write 3) ;
+   write: open-wb (truncate) ; load: open, read (reads the truncated file), lock, done ; get returns b"" ; write: close, lock, done *)
+Definition sch_k1_torn : list nat := [0; 0; 0; 1; 3; 2; 2; 2; 2; 0; 3; 3; 3; 1]%nat.
+(* same start, but the write finishes first and the load's locked block then overwrites the writing entry *)
+Definition sch_k1_acct : list nat := [0; 0; 0; 1; 2; 2; 3; 3; 3; 3; 1; 2; 2; 0]%nat.
+(* unload while the load is pending: the load's locked block fails its assertion, get_file raises AssertionError *)
+Definition sch_k2 : list nat := [0; 0; 0; 1; 2; 2; 2; 2; 0]%nat.
+(* unload while the write is pending: the write's locked block fails its assertion, update_file raises *)
+Definition sch_k3 : list nat := [0; 1; 2; 2; 2; 2; 0]%nat.
+
+
+(* ---------------------------------------------------------------- all schedules of a configuration *)
+Inductive reach (fl : flags) (cf : config) : gstate -> Prop :=
+| reach_init : reach fl cf (init cf)
+| reach_step : forall s t s', reach fl cf s -> step fl (cfg_max cf) s t = Some s' -> reach fl cf s'.
+
+(* S contains the initial state, is closed under every step of every thread, every member satisfies P,
+   and every step inside S decreases `weight` *)
+Definition closed (fl : flags) (cf : config) (P : gstate -> bool) (st : sset) : bool :=
+  smem (init cf) st &&
+  forallb (fun s => P s && forallb (fun s' => smem s' st && (weight s' <? weight s)%nat) (successors fl (cfg_max cf) s))
+          (sset_states st).
+
+Definition check_conf (fl : flags) (cf : config) (P : gstate -> bool) (fuel : nat) : bool :=
+  match reach_set fl cf fuel with
+  | Some st => closed fl cf P st
+  | None => false
+  end.
